@@ -434,10 +434,16 @@ def _builtin_model(name):
     return O.model_of_table(names, table), names, initial
 
 
+def _ordered_adjacency(m, names):
+    """Adjacency with the file's label order (the order the library iterates in)."""
+    adj = O.adjacency(m)
+    return {v: {l: adj[v][l] for l in names if l in adj[v]} for v in sorted(adj)}
+
+
 def builtin_length(name, cap, lmax):
     """Largest L <= lmax with at most `cap` accepted words of length <= L (oracle count)."""
     m, names, initial = _builtin_model(name)
-    adj = O.adjacency(m)
+    adj = _ordered_adjacency(m, names)
     cnt = {initial[0]: 1}
     total, L = 1, 0
     while L < lmax:
@@ -451,12 +457,46 @@ def builtin_length(name, cap, lmax):
     return L
 
 
+def count_k_paths(adj, k):
+    """Number of k-edge paths in the whole automaton (= edges of the k-step automaton when
+    every vertex is reachable in multiples of k steps; an upper bound otherwise)."""
+    cnt = {v: 1 for v in adj}
+    for _ in range(k):
+        cnt = {v: sum(cnt[w] for w in adj[v].values()) for v in adj}
+    return sum(cnt.values())
+
+
+def multiple_cost(adj, k, start, cap):
+    """Cost estimate only (never used to judge results): number of edge insertions the
+    library's breadth-first construction of the k-step automaton performs; it re-processes a
+    vertex once per time it was queued before its first visit."""
+    from collections import deque
+    npaths = {}
+
+    def kpaths(v):
+        if v not in npaths:
+            ends = [v]
+            for _ in range(k):
+                ends = [w for x in ends for w in adj[x].values()]
+            npaths[v] = ends
+        return npaths[v]
+    todo, visited, cost = deque([start]), set(), 0
+    while todo and cost <= cap:
+        v = todo.popleft()
+        visited.add(v)
+        for w in kpaths(v):
+            cost += 1
+            if w not in visited:
+                todo.append(w)
+    return cost
+
+
 def case_builtin(case):
     from geometry_tools.automata import fsa
     name, L = case["name"], case["L"]
     m, names, initial = _builtin_model(name)
     s = initial[0]
-    adj = O.adjacency(m)
+    adj = _ordered_adjacency(m, names)
     f = fsa.load_builtin(name)
     cls = "dict-built"
     stats = {"t": 0, "enum": 0, "rec": 0, "rlp": 0}
@@ -497,8 +537,12 @@ def case_builtin(case):
                     v.append({"key": "walk/initial_accepted_subword/" + cls, "msg": "%s: initial_accepted_subword(%r) = %r" % (name, w, p)})
                     return {"v": v}
     # operations
+    ks = []
     for k in (1, 2, 3, 4, "even"):
         kk = 2 if k == "even" else k
+        if multiple_cost(adj, kk, s, case["kcap"]) > case["kcap"]:
+            continue            # building the k-step automaton would take more than kcap edge insertions
+        ks.append(k)
         nm = "even_automaton" if k == "even" else "automaton_multiple"
         g = f.even_automaton() if k == "even" else f.automaton_multiple(k)
         v += unchanged(f, snap, nm, cls)
@@ -552,7 +596,7 @@ def case_builtin(case):
     if v:
         return {"v": v}
     v += check_rlp(f, m, s, [None, s] + sorted(m.V)[1:3], cls, snap, stats)
-    return {"v": v, "t": stats["t"], "o": "%s/%d/%d" % (name, nacc, len(mr.V)), "nt": True}
+    return {"v": v, "t": stats["t"], "o": "%s/%d/%d/%r" % (name, nacc, len(mr.V), ks), "nt": True}
 
 
 # ------------------------------------------------------------------------------------------
@@ -820,9 +864,11 @@ def run(ctx):
     from geometry_tools.automata import fsa
     names = sorted(n for n in fsa.list_builtins() if not n.startswith("__"))
     cap, lmax = (1500, 4) if q else (40000, 8)
-    bcases = [{"name": n, "L": builtin_length(n, cap, lmax)} for n in names]
+    kcap = 250000 if q else 5000000
+    bcases = [{"name": n, "L": builtin_length(n, cap, lmax), "kcap": kcap} for n in names]
     ctx.product("builtin-automata", "checks.c10:case_builtin", bcases,
-                domains={"files": len(names), "word length": "largest L<=%d with <=%d accepted words: %r"
+                domains={"files": len(names), "multiples": "k in 1..4 and even, skipped when building the k-step automaton needs > %d edge insertions" % kcap,
+                         "word length": "largest L<=%d with <=%d accepted words: %r"
                          % (lmax, cap, {c["name"]: c["L"] for c in bcases})}, chunk=1)
     roots = []
     for (k, E) in HISTORY_GRAPHS:
